@@ -4,6 +4,7 @@ import (
 	"fmt"
 	"go/ast"
 	"go/types"
+	"strings"
 )
 
 func (x *Exec) builtin(name string, e *ast.CallExpr, st *State) []Val {
@@ -156,8 +157,10 @@ func (x *Exec) appendCall(e *ast.CallExpr, st *State) Val {
 	// carry existential facts about old elements over to the new slice)
 	kb := BoundVar{Name: x.freshBound("k"), Sort: SInt}
 	kbt := mk(kb.Name, SInt)
-	st.assume(Forall([]BoundVar{kb}, Implies(And(Le(IntLit(0), kbt), Lt(kbt, oldLen)),
-		Eq(Select(na, IdxAdd(off, kbt)), Select(oldArr, IdxAdd(oldOff, kbt)))), Select(oldArr, IdxAdd(oldOff, kbt))))
+	if pat := Select(oldArr, IdxAdd(oldOff, kbt)); !strings.Contains(pat.String(), "(ite ") { // solvers reject ite inside patterns
+		st.assume(Forall([]BoundVar{kb}, Implies(And(Le(IntLit(0), kbt), Lt(kbt, oldLen)),
+			Eq(Select(na, IdxAdd(off, kbt)), Select(oldArr, IdxAdd(oldOff, kbt)))), pat))
+	}
 	// new elements
 	if spread != nil {
 		sarr := st.sel(h, slReg(spread.T))
